@@ -16,6 +16,10 @@ claimed = {
  "C12": ("All six arithmetic relations of the statement are SMT-decided over the whole range n,w,p in [0,2^62] on the real GetRequiredWaitSlaveCount/GetFailoverQuorum/CheckFailoverQuorum (loop-free; the only bound is the word size).", "§7 C12"),
  "C04": ("One call of the real updateActiveNodes (with calcActiveNodes, calcActiveNodesChanges, semi-sync adjustments, eviction guard, SetActiveNodes) from an arbitrary membership/health situation of a master + 2 replicas (10 replica classes x semi-sync flag x old-list membership x master semi-sync state x both adjust orders), with (a)/(b) asserted as checkpoint invariants after every mutating statement or coordination write (crash at any point) and with one failing/lost-reply call; list content rules on every published value; SetRecovery delists before it marks. Known findings listed in KNOWN_FINDINGS.json are reported as such.", "§7 C04"),
  "C15": ("One operation of the real zkDCS data plane (create/set/get/delete/children incl. makePath, retry and path normalisation) from an arbitrary tree over 4 keys x 4 node kinds x 6 slash spellings against a fake ZooKeeper as reference tree, znode versions symbolic (solver-decided), plus buildFullPath over all byte strings up to length 7/10, retry-only-while-connected with 1/2 lost requests, and ephemeral lifetime across sessions. Mostly structural decisions (exhaustive re-execution), the solver decides the version arithmetic.", "§7 C15"),
+ "C06": ("One manager iteration of the real stateManager request branch (approve/start/perform/fail-or-finish with the real appDCS bookkeeping) from an arbitrary pending request with symbolic run_count, attempt limit, timeout, initiation time and clock; the same iteration interleaved with the operator's abort and the real initiators (CliSwitch, IssueFailover) at every manager write to `switch`; two initiators racing; and the iteration with the whole real performSwitchover (success record implies recorded master = promoted node and writable). Abort/initiator races that the missing compare-and-set makes possible are listed as known findings.", "§7 C06"),
+ "C08": ("One iteration of the real stateLost (with checkHAReplicasRunning, getLocalNodeState, the real Node.SetReadOnly/setReadonlyWithTimeout) over every row of the statement's decision table: topology (single node, non-HA, 2..3/4 HA hosts), local role, per-replica probe outcome (streaming, stopped, wrong source, not semi-sync, refusing, hanging), every outcome of SET read_only incl. stuck commits, loss timer and elapsed time symbolic. The local-status-query failure case is a known finding.", "§7 C08"),
+ "C10": ("One manager pass of the real repair functions over a grid of replica states (read-only x role x 4-8 thread/error classes x semi-sync), master states, repair histories with symbolic counters/limits/cooldown clock, decoy hosts, and 1 (2) failing or lost-reply calls: safety ids on every path (master key untouched, only registered hosts, never self, reset gated by aggressive mode/attempt limit/cooldown) and the fixpoint characterisation (no statement issued implies canonical state; every statement corrective).", "§7 C10"),
+ "C16": ("findBestStreamFrom over every stream_from configuration of 4 (5) hosts incl. chains, cycles, self-reference with symbolic ancestor health (spec + termination as loop-bound violation); one repairCascadeNode step with bit-set GTIDs and environment progress (moved only if contained, never to itself); cascade hosts never counted, listed (calcActiveNodes) or promoted (performSwitchover on that list).", "§7 C16"),
  "C18": ("One call of the real repairReadOnlyOnMaster from an arbitrary situation (0-2 replicas quick / 3 thorough, any reports present/absent, any non-NaN usages and thresholds with not_critical<=critical, both keep-super settings, semi-sync on/off, wait count 0..3, one failing or lost-reply call): forced read-only iff the statement's condition, correct super flag, writable only-if, low_space follows the last successful change; DiskState.Usage non-NaN over all uint64 pairs.", "§7 C18"),
  "C14": ("Selection results decided against the statement's oracle (membership, error-iff-empty, never 'from', priority within the lag bound with the code's own FP subtraction, agreement with the most-recent node) for every priority/lag/GTID-inclusion pattern of <=3 (thorough 4) candidates; termination as a recursion-depth violation.", "§7 C14"),
  "C13": ("Subset/ahead/split-brain/minus/diff relations decided against membership semantics with symbolic interval bounds over the real go-mysql representation (2 UUIDs, <=2 tags, <=2-3 intervals per slice); most-recent-node choice over symbolic bit-sets.", "§7 C13"),
